@@ -52,6 +52,8 @@ QuotientLaw == s.phase \in {"loop", "done"} =>
 \* columns not yet stored are untouched (zero): a store writes its own column only
 OwnColumnOnly == s.phase \in {"loop", "done"} =>
                    \A j \in (0..(p.n - 1)) \ s.done : \A i \in 0..(p.m - 1) : At(s.jac, i, j) = 0
+\* the closed form used by the trace specification for the maps f_i = s_i x_j^2
+QuadLemma == \A x \in -9..9 : \A d \in Deltas : (x + d) * (x + d) - x * x = d * QuadQuot(x, d)
 NoPanic == s.phase # "panic"
 Termination == <>(s.phase = "done")
 
